@@ -354,7 +354,18 @@ def run_binary(job):
 A_LIB = ('#[typeshare]\npub struct A1 { pub x: u8 }\n#[typeshare]\n#[serde(rename = "A2Renamed")]\npub struct A2 { pub x: u8 }\n'
          '#[typeshare]\npub struct A3 { pub y: String }\n#[typeshare]\npub struct Wrap<T> { pub inner: T }\n')
 MULTI_WS = [
-    # (a cross-crate reference to a serde-RENAMED type loses its import: the recorded open finding C14-renamed-import; not used here)
+    # a cross-crate reference to a serde-RENAMED type: spelled with the generated name AND imported under it (the import was lost
+    # before the /repo fix of finding C14-renamed-import, reconcile.rs:71) - by `use`, by qualified path, grouped with other kinds
+    ('use of a renamed type of another crate', {'a/src/lib.rs': A_LIB, 'b/src/lib.rs': 'use a::A2;\nuse a::A1;\n#[typeshare]\npub struct B1 { pub f: A2, pub g: Vec<A2>, pub h: A1 }\n'},
+     {'b': ['A1', 'A2Renamed', 'A2Renamed']}),
+    ('qualified path to a renamed type of another crate', {'a/src/lib.rs': A_LIB, 'b/src/lib.rs': '#[typeshare]\npub struct B1 { pub f: a::A2, pub g: Option<a::m::A2>, pub h: a::Wrap<a::A2> }\n'},
+     {'b': ['A2Renamed', 'A2Renamed', 'A2Renamed', 'Wrap']}),
+    ('renamed enum, alias and generic struct of another crate', {'a/src/lib.rs': '#[typeshare]\n#[serde(rename = "ColorName")]\npub enum Color { Red, Green }\n'
+                                                                                 '#[typeshare]\n#[serde(rename = "UserId")]\npub type Id = String;\n'
+                                                                                 '#[typeshare]\n#[serde(rename = "PageOf")]\npub struct Page<T> { pub items: Vec<T> }\n',
+                                                                 'b/src/lib.rs': 'use a::{Color, Id, Page};\n#[typeshare]\n#[serde(tag = "t", content = "c")]\npub enum E1 { V0(Color), V1 { f: Option<Id>, g: Page<Color> } }\n'
+                                                                                 '#[typeshare]\npub type L1 = Page<Id>;\n'},
+     {'b': ['ColorName', 'ColorName', 'PageOf', 'PageOf', 'UserId', 'UserId']}),
     ('explicit imports from a crate that also has a renamed type', {'a/src/lib.rs': A_LIB, 'b/src/lib.rs': 'use a::{A1, A3, Wrap};\n#[typeshare]\npub struct B1 { pub f: A1, pub g: Vec<A3>, pub h: Wrap<A3> }\n'},
      {'b': ['A1', 'A3', 'A3', 'Wrap']}),
     ('glob import of a crate with a renamed type', {'a/src/lib.rs': A_LIB, 'b/src/lib.rs': 'use a::*;\n#[typeshare]\npub struct B1 { pub f: A1, pub g: Option<A3>, pub h: Wrap<A1> }\n'},
@@ -380,7 +391,7 @@ def phase_multi(chk):
     """TypeScript, --output-folder: in every generated file each referenced user type is defined in that file or imported into
     it, and every imported name is defined in the file it is imported from (closed-world name resolution: C09's statement for a
     run that writes several files).  Workspaces are hand-written and outside the recorded C14 classes (named or glob-covered
-    references, unique generated names)."""
+    references - to serde-renamed types of other crates too, since the /repo fix of C14-renamed-import -, unique generated names)."""
     import re
     for name, files, expect in MULTI_WS:
         d = vf.tmpdir('verif-c09-')
@@ -433,7 +444,7 @@ def run(chk):
     chk.assumptions = ['syn is not modelled: the model receives the AST produced by harness/libdrive/src/ast.rs from the same text',
                        'what a name in a type position of the target language MEANS is fixed by Spec/C09Spec.v (c09_observe, builtin tables) and '
                        'lib/extract.py; no target-language compiler is installed',
-                       'single-file mode (p_imports = []) for the generated programs; folder output: six hand-written workspaces through the real binary (TypeScript), every reference resolved in its file; import completeness in general is C14\'s subject',
+                       'single-file mode (p_imports = []) for the generated programs; folder output: nine hand-written workspaces through the real binary (TypeScript), every reference resolved in its file; import completeness in general is C14\'s subject',
                        'C09_Go covers every alphanumeric uppercase_acronyms list on ASCII programs (all generated programs and lists are); '
                        'non-alphanumeric acronyms and non-ASCII names are outside the theorem and are not generated']
     chk.prepare(need_cli=True)
